@@ -781,6 +781,15 @@ func buildField(ww *conversionVisitor, node sourcewalk.FieldNode) (*descriptorpb
 			},
 		})
 
+		if st.Any.ListRules != nil {
+			ww.file.ensureImport(j5ListAnnotationsImport)
+			proto.SetExtension(desc.Options, list_j5pb.E_Field, &list_j5pb.FieldConstraint{
+				Type: &list_j5pb.FieldConstraint_Any{
+					Any: st.Any.ListRules,
+				},
+			})
+		}
+
 		return desc, nil
 	default:
 		return nil, fmt.Errorf("unknown schema type %T", st)
